@@ -110,6 +110,15 @@ def run(rep):
     rng = random.Random(rep.seed)
     n = 1200 if rep.tier == "quick" else 40000
     cases = [c for _, c in load_corpus(PID)] + [gen_case(rng) for _ in range(n)]
+    # small scope: (base, target) over ALL map-rooted trees of at most 3 nodes with int / string / float atoms, lists and
+    # maps - every kind change, every add/remove, every list edit at that size (quick: a sample of the 4356 pairs)
+    import gen as _g
+    small = [t for t in _g.enum_trees(3, [1, "x", 1.5], ["a", "b"], 2) if isinstance(t, dict)]
+    pairs = [(b, t) for b in small for t in small]
+    if rep.tier == "quick":
+        pairs = random.Random(rep.seed + 31).sample(pairs, 700)
+    cases += [{"base": b, "target": t, "f1": rng.choice(FMTS), "f2": rng.choice(FMTS), "small_scope": True} for b, t in pairs]
+    rep.extra["small_scope_pairs"] = len(pairs)
     nbad, mismatch = evaluate(rep, cases)
     from props.toolscommon import tool_cli_stage
     tool_cli_stage(rep, "bkld", random.Random(rep.seed + 909), 150 if rep.tier == "quick" else 5000)
